@@ -4,6 +4,7 @@ import os
 import random
 
 import core
+import progrun
 import gen_code
 from worker import Worker, Oracle
 
@@ -51,6 +52,7 @@ def run(ctx):
     tabs = ctx.tables["optables"]
     w = Worker()
     oracles = {}
+    progrun.apply(ctx, "diff_stream", "instruction stream")
     try:
         N = 25 if not ctx.thorough else 700
         names = [it.split(":")[0] for it in drv.ask(["c09.tables"])[0].split()]
